@@ -739,7 +739,9 @@ def ww_width(
     Returns:
         torch.Tensor
     """
-    return (cost * (3 / 2) * gamma.square() * spot / a).pow(1 / 3)
+    width = (cost * (3 / 2) * gamma.square() * spot / a).pow(1 / 3)
+    # no cost, no band: also where gamma is infinite (at the money with no variance left), where 0 * inf is nan
+    return width.where(torch.as_tensor(cost != 0, device=width.device), torch.zeros_like(width))
 
 
 def svi_variance(
